@@ -8,6 +8,9 @@ from .core import Unsupported
 
 NOOP_CALLS = {"print"}
 NOOP_ATTR_CALLS = {("warnings", "warn")}
+# networkx model classes: method -> fields it may change (frame of the assumed library contract)
+NX_MODIFIES = {"NxGraph": {"add_node": ["_gv"], "add_nodes_from": ["_gv"], "add_edge": ["_gv", "_ge", "_gw"]},
+               "NxDiGraph": {"add_node": ["_gv"], "add_nodes_from": ["_gv"], "add_edge": ["_gv", "_ge", "_gw"]}}
 
 
 class CallMixin:
@@ -99,7 +102,16 @@ class CallMixin:
         if isinstance(target, ast.Name):
             hint = self.cur.locals.get(target.id) if self.cur else None
             if hint is not None:
-                v = self.coerce(v, self.parse_ty(hint))
+                # "A|B": a local re-bound to values of different types (e.g. `edges = set(edges)`): the first alternative that fits
+                alts = [self.parse_ty(h) for h in hint.split("|")]
+                if not any(v.ty == a for a in alts):
+                    for a in alts:
+                        try:
+                            v = self.coerce(v, a)
+                            break
+                        except Unsupported:
+                            if a is alts[-1]:
+                                raise
             if isinstance(v.ty, T.Obj) and any(o is v for n, o in p.env.items() if n != target.id):
                 raise Unsupported(f"aliasing of object through name {target.id}")
             p.env[target.id] = self.named(v, p, target.id)
@@ -122,9 +134,18 @@ class CallMixin:
             return
         if isinstance(target, ast.Subscript):
             base = self.ev(target.value, p)
+            if isinstance(base.ty, T.Obj) and base.ty.cls == "NpArray2":
+                if not isinstance(target.value, ast.Name):
+                    raise Unsupported("store into a computed array")
+                ij = self.np2_index(base, target.slice, p, f"line {target.lineno}")
+                m = base.fields["_m"]
+                nf = dict(base.fields)
+                nf["_m"] = self.named(T.sv_map(m.ty.k, m.ty.v, m.dom, z3.Store(m.val, ij, self.coerce(v, T.REAL).t)), p, "arr")
+                p.env[target.value.id] = T.sv_obj("NpArray2", nf)
+                return
             key = self.ev(target.slice, p)
             if base.ty == T.EMPTYDICT and isinstance(v.ty, T.Obj) and isinstance(target.value, ast.Name) and self.cur and target.value.id in self.cur.locals:
-                base = self.coerce(base, self.parse_ty(self.cur.locals[target.value.id]))
+                base = self.coerce(base, self.parse_ty(self.cur.locals[target.value.id].split("|")[0]))
             if isinstance(base.ty, T.ObjMap):
                 if not (isinstance(v.ty, T.Obj) and v.ty.cls == base.ty.cls):
                     raise Unsupported(f"store of {v.ty} into {base.ty}")
@@ -146,6 +167,10 @@ class CallMixin:
                 return self.store(target.value, T.sv_seq(base.ty.e, base.len, z3.Store(base.at, j, self.coerce(v, base.ty.e).t)), p)
             raise Unsupported(f"subscript store on {base.ty}")
         if isinstance(target, (ast.Tuple, ast.List)):
+            if isinstance(v.ty, T.Multi) and len(target.elts) == len(v.items):
+                for t, x in zip(target.elts, v.items):
+                    self.store(t, x, p)
+                return
             if isinstance(v.ty, T.Pair) and len(target.elts) == 2:
                 self.store(target.elts[0], T.scalar(v.ty.a, v.ty.fst(v.t)), p)
                 self.store(target.elts[1], T.scalar(v.ty.b, v.ty.snd(v.t)), p)
@@ -212,6 +237,21 @@ class CallMixin:
             if lib is not None:
                 return lib
             recv = self.ev(f.value, p)
+            if isinstance(recv.ty, T.Obj) and recv.ty.cls == "NpArray2":
+                if f.attr == "flatten" and not e.args and not e.keywords:
+                    # row-major listing: position FLAT(i, j, c) = i * c + j holds a[i, j]; r * c entries (assumed library contract)
+                    r, c, m = recv.fields["_r"].t, recv.fields["_c"].t, recv.fields["_m"]
+                    at = fresh("flat_at", z3.ArraySort(T.I, T.R))
+                    n = fresh("flat_len", T.I)
+                    pt = T.Pair(T.INT, T.INT)
+                    i, j = fresh("i", T.I), fresh("j", T.I)
+                    self._assume(p, z3.ForAll([i, j], z3.Implies(z3.And(0 <= i, i < r, 0 <= j, j < c), at[TH.FLAT(i, j, c)] == m.val[pt.mk(i, j)]),
+                                              patterns=[at[TH.FLAT(i, j, c)]]))
+                    self._assume(p, z3.And(n == TH.FLATLEN(r, c), n >= 0))
+                    return T.sv_seq(T.REAL, n, at)
+                raise Unsupported(f"numpy array method {f.attr}")
+            if isinstance(recv.ty, T.Obj) and recv.ty.cls in NX_MODIFIES:
+                return self.nx_method(recv, f, e, p)
             if isinstance(recv.ty, T.Obj):
                 return self.call_method(recv, f, e, p)
             return self.container_method(recv, f, e, p)
@@ -224,6 +264,44 @@ class CallMixin:
         """Call of a nested pure helper: an uninterpreted Boolean function of its (scalar) arguments."""
         if e.keywords:
             raise Unsupported("keyword call of a nested helper")
+        fdef = self.local_defs[name]
+        body = fdef.body[1:] if fdef.body and isinstance(fdef.body[0], ast.Expr) and isinstance(getattr(fdef.body[0], "value", None), ast.Constant) else fdef.body
+        chain = body and all((isinstance(st, ast.If) and not st.orelse and len(st.body) == 1 and isinstance(st.body[0], ast.Return) and st.body[0].value is not None)
+                             or (st is body[-1] and isinstance(st, ast.Return) and st.value is not None) for st in body)
+        plain = not fdef.args.vararg and not fdef.args.kwarg and not fdef.args.kwonlyargs and not fdef.args.defaults and len(fdef.args.args) == len(e.args)
+        if chain and plain and any(isinstance(st, ast.If) for st in body):
+            # a helper of the form `if c1: return e1 ... [return en]`: inlined as the conditional expression it denotes (reads of enclosing
+            # variables see their current values; a test decided by the known arguments selects its branch, others must be call-free)
+            vals = [self.ev(a, p) for a in e.args]
+            saved = dict(p.env)
+            try:
+                for a, v in zip(fdef.args.args, vals):
+                    p.env[a.arg] = v
+                pending = []
+                result = None
+                for st in body:
+                    if isinstance(st, ast.Return):
+                        result = self.ev(st.value, p)
+                        break
+                    c = z3.simplify(self.truth(self.ev(st.test, p), p))
+                    if z3.is_true(c):
+                        result = self.ev(st.body[0].value, p)
+                        break
+                    if z3.is_false(c):
+                        continue
+                    self.guards.append(c)
+                    try:
+                        pending.append((c, self.ev(st.body[0].value, p)))
+                    finally:
+                        self.guards.pop()
+                if result is None:
+                    result = T.sv_none()
+                for c, v in reversed(pending):
+                    result = self.merge(c, v, result)
+                return result
+            finally:
+                p.env.clear()
+                p.env.update(saved)
         args = []
         for a in e.args:
             v = self.ev(a, p)
@@ -250,6 +328,26 @@ class CallMixin:
             r = fresh("rand", T.R)
             self._assume(p, z3.And(r >= 0, r < 1))
             return T.sv_real(r)
+        if name in ("nx.Graph", "nx.DiGraph", "networkx.Graph", "networkx.DiGraph") and not e.args and not e.keywords:
+            return self.nx_new("NxDiGraph" if name.endswith("DiGraph") else "NxGraph")
+        if name in ("np.zeros", "numpy.zeros") and len(e.args) == 1 and not e.keywords and isinstance(e.args[0], ast.Tuple) and len(e.args[0].elts) == 2:
+            # np.zeros((r, c)): an r x c array of 0.0 (ValueError for a negative dimension); assumed library contract
+            if "NpArray2" not in self.reg.layouts:
+                raise Unsupported("layout NpArray2 is not registered (numpy model)")
+            r, c = (self.coerce(self.ev(x, p), T.INT).t for x in e.args[0].elts)
+            self._raise_if(p, z3.Or(r < 0, c < 0), "ValueError", f"line {e.lineno}")
+            pt = T.Pair(T.INT, T.INT)
+            dom = fresh("np_dom", z3.ArraySort(pt.sort(), T.B))
+            i, j = fresh("i", T.I), fresh("j", T.I)
+            self._assume(p, z3.ForAll([i, j], dom[pt.mk(i, j)] == z3.And(0 <= i, i < r, 0 <= j, j < c), patterns=[dom[pt.mk(i, j)]]))
+            return T.sv_obj("NpArray2", {"_m": T.sv_map(pt, T.REAL, dom, z3.K(pt.sort(), z3.RealVal(0))), "_r": T.sv_int(r), "_c": T.sv_int(c)})
+        if name in ("np.array", "numpy.array") and len(e.args) == 1 and not e.keywords:
+            v = self.ev(e.args[0], p)
+            if v.ty == T.EMPTYLIST:
+                return self.coerce(v, T.Seq(T.REAL))
+            if isinstance(v.ty, T.Seq):
+                return v           # np.array(list): the same sequence of values
+            raise Unsupported(f"np.array of {v.ty}")
         if name == "random.seed":
             for a in e.args:
                 self.ev(a, p)
@@ -270,6 +368,64 @@ class CallMixin:
             self._assume(p, z3.Implies(z3.ForAll([x], pop.t[x] <= 1, patterns=[pop.t[x]]), TH.distinct_t(t)))
             return T.scalar(T.TUP, t)
         return None
+
+    # ---- networkx graphs: the ASSUMED contract of the library class (DESIGN §3.4). A graph over integer vertices is its vertex set, its set
+    # of ordered pairs (for nx.Graph both orientations of every link are present) and the `weight` attribute of each pair.
+    def nx_new(self, cls):
+        lay = self.reg.layouts.get(cls)
+        if lay is None:
+            raise Unsupported(f"layout {cls} is not registered (networkx model)")
+        pt = T.Pair(T.INT, T.INT)
+        return T.sv_obj(cls, {"_gv": T.scalar(T.Set(T.INT), z3.K(T.I, z3.BoolVal(False))),
+                              "_ge": T.scalar(T.Set(pt), z3.K(pt.sort(), z3.BoolVal(False))),
+                              "_gw": T.sv_map(pt, T.REAL, z3.K(pt.sort(), z3.BoolVal(False)), fresh("gw0", z3.ArraySort(pt.sort(), T.R)))})
+
+    def nx_method(self, recv, f, e, p):
+        if not isinstance(f.value, ast.Name):
+            raise Unsupported("networkx method on a computed receiver")
+        cls, name = recv.ty.cls, f.value.id
+        directed = cls == "NxDiGraph"
+        pt = T.Pair(T.INT, T.INT)
+        gv, ge, gw = recv.fields["_gv"], recv.fields["_ge"], recv.fields["_gw"]
+        kw = {k.arg: k.value for k in e.keywords}
+
+        def put(gv2, ge2, gw2):
+            nf = {"_gv": self.named(T.scalar(gv.ty, gv2), p, "gv"), "_ge": self.named(T.scalar(ge.ty, ge2), p, "ge"),
+                  "_gw": self.named(T.sv_map(pt, T.REAL, gw2[0], gw2[1]), p, "gw")}
+            p.env[name] = T.sv_obj(cls, nf)
+            return T.sv_none()
+        if f.attr == "add_node" and len(e.args) == 1:
+            for v in kw.values():
+                self.ev(v, p)          # node attributes are not modelled
+            n = self.coerce(self.ev(e.args[0], p), T.INT).t
+            return put(z3.Store(gv.t, n, True), ge.t, (gw.dom, gw.val))
+        if f.attr == "add_edge" and len(e.args) == 2 and set(kw) <= {"weight"}:
+            u = self.coerce(self.ev(e.args[0], p), T.INT).t
+            v = self.coerce(self.ev(e.args[1], p), T.INT).t
+            gv2 = z3.Store(z3.Store(gv.t, u, True), v, True)
+            ge2 = z3.Store(ge.t, pt.mk(u, v), True)
+            dom, val = gw.dom, gw.val
+            if not directed:
+                ge2 = z3.Store(ge2, pt.mk(v, u), True)
+            if "weight" in kw:
+                w = self.coerce(self.ev(kw["weight"], p), T.REAL).t
+                dom, val = z3.Store(dom, pt.mk(u, v), True), z3.Store(val, pt.mk(u, v), w)
+                if not directed:
+                    dom, val = z3.Store(dom, pt.mk(v, u), True), z3.Store(val, pt.mk(v, u), w)
+            return put(gv2, ge2, (dom, val))
+        if f.attr == "add_nodes_from" and len(e.args) == 1 and not kw:
+            src = self.ev(e.args[0], p)
+            x = fresh("x", T.I)
+            if isinstance(src.ty, T.Bag) and src.ty.e == T.INT:
+                mem = src.t[x] >= 1
+            elif isinstance(src.ty, T.Set) and src.ty.e == T.INT:
+                mem = src.t[x]
+            else:
+                raise Unsupported(f"add_nodes_from over {src.ty}")
+            gv2 = fresh("gv_from", gv.ty.sort())
+            self._assume(p, z3.ForAll([x], gv2[x] == z3.Or(gv.t[x], mem), patterns=[gv2[x]]))
+            return put(gv2, ge.t, (gw.dom, gw.val))
+        raise Unsupported(f"networkx method {f.attr} in this form")
 
     def rng_choice(self, e, p):
         """Generator.choice(population_list, size=k, replace=False): k distinct positions of the list, i.e. a sub-bag of size k
@@ -296,6 +452,12 @@ class CallMixin:
         return self.ev(e.args[0], p)
 
     def bi_len(self, e, p):
+        if len(e.args) == 1 and not e.keywords and isinstance(e.args[0], ast.Name) and isinstance(p.env.get(e.args[0].id, SV(T.NONE)).ty, T.Obj) \
+                and not self.spec_mode:
+            # len(obj) is obj.__len__(): through that method's contract
+            call = ast.copy_location(ast.Call(func=ast.copy_location(ast.Attribute(value=e.args[0], attr="__len__", ctx=ast.Load()), e), args=[], keywords=[]), e)
+            self.call_ord[id(call)] = self.call_ord.get(id(e), 0)
+            return self.ev_Call(call, p)
         return T.sv_int(self.length(self._one(e, p), p))
 
     def bi_tuple(self, e, p):
@@ -558,7 +720,7 @@ class CallMixin:
             et = args[0].ty
             hint = None
             if isinstance(f.value, ast.Name) and self.cur and f.value.id in self.cur.locals:
-                recv = self.coerce(recv, self.parse_ty(self.cur.locals[f.value.id]))
+                recv = self.coerce(recv, self.parse_ty(self.cur.locals[f.value.id].split("|")[0]))
             else:
                 recv = self.coerce(recv, T.Bag(et))
             rt = recv.ty
